@@ -31,6 +31,7 @@ fn main() {
         "stream" => vh::stream::run(&opts),
         "roundtrip" => vh::roundtrip::run(&opts),
         "replay-reader" => vh::replay_reader::run(&opts),
+        "replay-writer" => vh::replay_writer::run(&opts),
         "renumber" => vh::renumber_drive::run(&opts),
         other => {
             eprintln!("unknown subcommand {other}");
